@@ -203,6 +203,7 @@ C04Frozen == cfg.checkRange => O!C04Frozen
 C18 == O!C18
 C18Finish == O!C18Finish
 C18Zero == O!C18Zero
+C18Governs == O!C18Governs
 C19 == O!C19
 C19Cap == O!C19Cap
 \* C19 on a scale relative to the configured maximum (one part in a million), so that an excess
